@@ -31,6 +31,10 @@ func nitrogenProjects(c *core.Ctx, n, years int, salt int64, legumes bool, deepT
 		if o.Peat {
 			o.MinLayers = 9
 		}
+		// light clays / mucks with field capacities above 50 vol %: the wet end of the denitrification model
+		if i%5 == 2 && !o.Peat {
+			o.WetTopsoil, o.MinLayers = true, 3
+		}
 		p := gen.Random(r, fmt.Sprintf("n%d_%d", c.Seed, i), o)
 		if deepTill && len(p.Till) > 0 && i%3 == 0 {
 			p.Till[0].Cm = []int{45, 50, 60, 100, 200}[i%5]
@@ -41,7 +45,7 @@ func nitrogenProjects(c *core.Ctx, n, years int, salt int64, legumes bool, deepT
 				}
 			}
 		}
-		p.Arms = []string{fmt.Sprintf("heavyRain=%v drain=%v shallowGW=%v legumes=%v peat=%v bare=%v", o.HeavyRain, o.Drain, o.ShallowGW, legumes && i%2 == 0, o.Peat, o.NoCrops)}
+		p.Arms = []string{fmt.Sprintf("heavyRain=%v drain=%v shallowGW=%v legumes=%v peat=%v bare=%v wetTopsoil=%v", o.HeavyRain, o.Drain, o.ShallowGW, legumes && i%2 == 0, o.Peat, o.NoCrops, o.WetTopsoil)}
 		ps = append(ps, p)
 	}
 	return ps
